@@ -21,6 +21,7 @@ VERIF = os.path.dirname(HERE)
 REPO = '/repo'
 PY = sys.executable
 SCALE = 1.0
+FAST = False
 
 LP = 'matchingproblems/solver/lp_solver.py'
 MODEL = 'matchingproblems/solver/model.py'
@@ -243,6 +244,7 @@ def run_check(d, prop, runs, out):
     env['PYTHONDONTWRITEBYTECODE'] = '1'
     if SCALE != 1.0:
         env['VERIF_SCALE'] = str(SCALE)
+    if SCALE != 1.0 or FAST:
         env['VERIF_FAST_REPORT'] = '1'
     t0 = time.time()
     cmd = [PY, os.path.join(HERE, 'check.py'), prop, '--tier', 'quick']
@@ -269,6 +271,8 @@ def main():
     ap = argparse.ArgumentParser()
     ap.add_argument('--only', default='')
     ap.add_argument('--runs', type=int, default=0)
+    ap.add_argument('--fast', action='store_true',
+                    help='report violations without minimising / replaying')
     ap.add_argument('--scale', type=float, default=1.0,
                     help='fraction of each quick budget (matrix runs)')
     ap.add_argument('--seeded', action='store_true',
@@ -278,8 +282,9 @@ def main():
     ap.add_argument('--all-props', action='store_true',
                     help='run every check against each mutant')
     a = ap.parse_args()
-    global SCALE
+    global SCALE, FAST
     SCALE = a.scale
+    FAST = a.fast
     import props
     results = []
     items = []
